@@ -154,12 +154,16 @@ class Xunitary(Compiler):
 
         # merge S2gates
         if len(regrefs) > half_n_modes:
+            # the positions refer to the unmodified list, so the list is only rebuilt
+            # once all groups of duplicates have been merged
+            merged = {}
+            removed = set()
             for mode, indices in list_duplicates(regrefs):
                 r = 0
                 phi = 0
 
                 for k, i in enumerate(sorted(indices, reverse=True)):
-                    removed_cmd = B.pop(i)
+                    removed_cmd = B[i]
                     r += removed_cmd.op.p[0]
                     phi_new = removed_cmd.op.p[1]
 
@@ -169,7 +173,10 @@ class Xunitary(Compiler):
                     phi = phi_new
 
                 i, j = mode
-                B.insert(indices[0], Command(ops.S2gate(r, phi), [registers[i], registers[j]]))
+                merged[indices[0]] = Command(ops.S2gate(r, phi), [registers[i], registers[j]])
+                removed.update(indices[1:])
+
+            B = [merged.get(k, cmd) for k, cmd in enumerate(B) if k not in removed]
 
         meas_seq = [C[-1]]
         seq = GaussianUnitary().compile(C[:-1], registers)
